@@ -10,7 +10,22 @@ from .values import (range_axioms, SBytes, SInt, SBool, Sym, Ref, zint, zbool, m
                      Unsupported, IntS)
 
 SOLVER_TIMEOUT_MS = 10000
-FEAS_TIMEOUT_MS = 2000
+FEAS_TIMEOUT_MS = 1500
+
+
+def guarded_check(s, timeout_ms, *assumptions):
+    """solver.check() with a hard stop: z3 does not always honour its own timeout (observed: minutes inside one
+    check); a timer thread interrupts the context shortly after the budget.  An interrupted check is `unknown`."""
+    import threading
+    t = threading.Timer(timeout_ms / 1000.0 + 1.0, s.ctx.interrupt)
+    t.daemon = True
+    t.start()
+    try:
+        return s.check(*assumptions)
+    except z3.Z3Exception:
+        return z3.unknown
+    finally:
+        t.cancel()
 
 
 class PathEnd(Exception):
@@ -30,7 +45,7 @@ STATS = Stats()
 
 class Obligation:
     __slots__ = ("name", "kind", "status", "model", "time", "detail", "assertions", "goal", "inputs", "path",
-                 "backend")
+                 "backend", "unconfirmed")
 
     def __init__(self, name, kind):
         self.name = name
@@ -42,6 +57,7 @@ class Obligation:
         self.inputs = None
         self.path = None
         self.backend = "z3"
+        self.unconfirmed = False
 
 
 class UFApp:
@@ -195,7 +211,7 @@ class State:
         s.push()
         s.add(e)
         t0 = time.time()
-        r = s.check()
+        r = guarded_check(s, FEAS_TIMEOUT_MS)
         s.pop()
         STATS.solver_s += time.time() - t0
         STATS.feas_queries += 1
@@ -327,7 +343,7 @@ class State:
 
     def _check(self, s, ob):
         t0 = time.time()
-        r = s.check()
+        r = guarded_check(s, SOLVER_TIMEOUT_MS)
         dt = time.time() - t0
         STATS.solver_s += dt
         STATS.queries += 1
@@ -343,7 +359,14 @@ class State:
             ob.backend = "cvc5"
             STATS.by_backend["cvc5"] += 1
             return "unsat"
-        ob.detail += f" [z3: {s.reason_unknown()}; cvc5: {r2}]"
+        if r2 == "sat":
+            # refuted by the second back end only: no model to replay -> a violation only if the native replay /
+            # search of the check confirms it, otherwise undecided (see check.finish)
+            ob.backend = "cvc5"
+            ob.detail += " [z3: unknown; cvc5: sat, no model]"
+            ob.unconfirmed = True
+            return "sat"
+        ob.detail += f" [z3: {s.reason_unknown()}; cvc5: {r2[:80]}]"
         return "unknown"
 
     def _discharge(self, ob, ge):
@@ -366,7 +389,7 @@ class State:
         s = self._solver_with_context([z3.Not(ge)])
         r = self._check(s, ob)
         ob.status = r
-        if r == "sat":
+        if r == "sat" and not ob.unconfirmed:
             ob.model = self._minimise(s)
             self._refine_uf(s, ob)
 
@@ -448,7 +471,7 @@ class State:
             for l in lens:
                 s.add(l <= bound)
             t0 = time.time()
-            r = s.check()
+            r = guarded_check(s, SOLVER_TIMEOUT_MS)
             STATS.solver_s += time.time() - t0
             if r == z3.sat:
                 best = s.model()
